@@ -1,8 +1,10 @@
 package checks
 
 import (
+	"bytes"
 	"fmt"
 	"go/ast"
+	"go/printer"
 	"go/token"
 	"go/types"
 	"strings"
@@ -26,7 +28,8 @@ func init() {
 	mutants("C47",
 		Mutant{"tag-verdict-weakened", sf, "if !ok {", "if !ok && len(plaintext) == 0 {", "open-verdict"},
 		Mutant{"returns-other-buffer", sf, "return plaintext, nil", "return ciphertext[nonceLen+secretbox.Overhead:], nil", "open-verdict"},
-		Mutant{"length-guard-too-low", sf, "if len(ciphertext) <= secretbox.Overhead+nonceLen {", "if len(ciphertext) <= nonceLen {", "len-guard-safe"},
+		Mutant{"length-guard-too-low", sf, "if len(ciphertext) < secretbox.Overhead+nonceLen {", "if len(ciphertext) < nonceLen {", "len-guard-safe"},
+		Mutant{"refix-rejects-sealed-empty", sf, "if len(ciphertext) < secretbox.Overhead+nonceLen {", "if len(ciphertext) <= secretbox.Overhead+nonceLen {", "len-guard-accepts-sealed"},
 		Mutant{"box-offset", sf, "secretbox.Open(plaintext[:0], ciphertext[nonceLen:], ", "secretbox.Open(plaintext[:0], ciphertext[nonceLen-1:], ", "layout-mirror"},
 		Mutant{"library-error-swallowed", xf, "return chacha20poly1305.Open(dst, subNonce[:], ciphertext, additionalData)", "out, _ := chacha20poly1305.Open(dst, subNonce[:], ciphertext, additionalData)\n\treturn out, nil", "open-forwards"},
 		Mutant{"nonce-length-one-sided", xf, "if len(nonce) != NonceSize {\n\t\treturn nil, fmt.Errorf(", "if len(nonce) < NonceSize {\n\t\treturn nil, fmt.Errorf(", "nonce-len-guard"},
@@ -281,34 +284,46 @@ func c47chacha(c *engine.Ctx, p *engine.Prog) {
 	}
 	c.Floor("open-forwards", nf, 3)
 
-	// nonce-len-guard
+	// nonce-len-guard (the slices may sit in a private helper that receives the nonce: the guard may be at any level of the chain)
 	nn := 0
 	for _, f := range []*engine.Fn{sealF, openF} {
 		sf := cjSSA(c, p, f)
 		if sf == nil {
 			continue
 		}
-		var nonce *ssa.Parameter
-		for _, pr := range sf.Params {
-			if pr.Name() == "nonce" {
-				nonce = pr
-			}
-		}
-		if nonce == nil {
-			c.Undecided("nonce-len-guard", f.Name, "parameter nonce not found")
+		if len(sf.Params) < 3 {
+			c.Undecided("nonce-len-guard", f.Name, "parameter nonce (AEAD argument #2) not found")
 			continue
 		}
-		for _, b := range sf.Blocks {
-			for _, in := range b.Instrs {
-				sl, ok := in.(*ssa.Slice)
-				if !ok || sl.X != ssa.Value(nonce) {
-					continue
+		var walk func(fn *ssa.Function, nonce ssa.Value, guarded bool, depth int, via string)
+		walk = func(fn *ssa.Function, nonce ssa.Value, guarded bool, depth int, via string) {
+			gateAt := func(b *ssa.BasicBlock) bool {
+				return cjCmpGate(fn, b, token.EQL, func(v ssa.Value) bool { x, ok := cjIsLenCall(v); return ok && x == nonce }, func(v ssa.Value) bool { k, ok := cjConstInt(v); return ok && k == nsz })
+			}
+			for _, b := range fn.Blocks {
+				for _, in := range b.Instrs {
+					switch x := in.(type) {
+					case *ssa.Slice:
+						if x.X != nonce {
+							continue
+						}
+						nn++
+						c.Check("nonce-len-guard", f.Name+via+" "+x.String(), x.Pos(), guarded || gateAt(b), "every slice of the nonce must be dominated by len(nonce) == NonceSize (exact), in the function or in its caller")
+					case *ssa.Call:
+						h := cjBody(x)
+						if h == nil || depth <= 0 || h.Pkg != sf.Pkg {
+							continue
+						}
+						for k, a := range x.Call.Args {
+							if a == nonce && k < len(h.Params) {
+								walk(h, h.Params[k], guarded || gateAt(b), depth-1, via+" via "+h.Name())
+							}
+						}
+					}
 				}
-				nn++
-				okg := cjCmpGate(sf, b, token.EQL, func(v ssa.Value) bool { x, ok := cjIsLenCall(v); return ok && x == ssa.Value(nonce) }, func(v ssa.Value) bool { k, ok := cjConstInt(v); return ok && k == nsz })
-				c.Check("nonce-len-guard", f.Name+" "+sl.String(), sl.Pos(), okg, "every slice of the nonce must be dominated by len(nonce) == NonceSize (exact)")
 			}
 		}
+		walk(sf, sf.Params[2], false, 2, "")
 	}
 	c.Floor("nonce-len-guard", nn, 4)
 
@@ -319,13 +334,31 @@ func c47chacha(c *engine.Ctx, p *engine.Prog) {
 		collect := func(f *engine.Fn) ([]row, *engine.Site) {
 			var rows []row
 			var last *engine.Site
-			for _, s := range f.Calls() {
-				n := s.CalleeName()
+			for _, d := range f.DeepFind(2, func(fn *engine.Fn, n ast.Node) bool {
+				call, ok := n.(*ast.CallExpr)
+				if !ok {
+					return false
+				}
+				st := fn.SiteOf(call)
+				if st == nil {
+					return false
+				}
+				nm := st.CalleeName()
+				return nm == "builtin.copy" || nm == X+"HChaCha20" || strings.HasSuffix(nm, "chacha20poly1305.New") || nm == "crypto/cipher.(AEAD).Seal" || nm == "crypto/cipher.(AEAD).Open"
+			}) {
+				n := d.Inner.CalleeName()
 				switch {
-				case n == "builtin.copy", n == X+"HChaCha20", strings.HasSuffix(n, "chacha20poly1305.New"):
-					rows = append(rows, row{n, strings.Join(cjArgTexts(s.Call), ", ")})
 				case n == "crypto/cipher.(AEAD).Seal", n == "crypto/cipher.(AEAD).Open":
-					last = s
+					if d.Inner == d.Outer {
+						last = d.Inner
+					}
+				default:
+					// arguments are rendered with the helper's nonce parameter mapped back to the caller's
+					var args []string
+					for _, a := range d.Inner.Call.Args {
+						args = append(args, c47Render(f, d, a))
+					}
+					rows = append(rows, row{n, strings.Join(args, ", ")})
 				}
 			}
 			return rows, last
@@ -349,9 +382,9 @@ func c47chacha(c *engine.Ctx, p *engine.Prog) {
 		if okLast {
 			as, ao := cjArgTexts(ls.Call), cjArgTexts(lo.Call)
 			okLast = as[0] == ao[0] && as[1] == ao[1] && as[3] == ao[3] &&
-				engine.ObjOf(sealF.Info(), ls.Call.Args[0]) == cjParam(sealF, "dst") && engine.ObjOf(openF.Info(), lo.Call.Args[0]) == cjParam(openF, "dst") &&
-				engine.ObjOf(sealF.Info(), ls.Call.Args[2]) == cjParam(sealF, "plaintext") && engine.ObjOf(openF.Info(), lo.Call.Args[2]) == cjParam(openF, "ciphertext") &&
-				engine.ObjOf(sealF.Info(), ls.Call.Args[3]) == cjParam(sealF, "additionalData") && engine.ObjOf(openF.Info(), lo.Call.Args[3]) == cjParam(openF, "additionalData")
+				engine.ObjOf(sealF.Info(), ls.Call.Args[0]) == paramObj(sealF, 0) && engine.ObjOf(openF.Info(), lo.Call.Args[0]) == paramObj(openF, 0) &&
+				engine.ObjOf(sealF.Info(), ls.Call.Args[2]) == paramObj(sealF, 2) && engine.ObjOf(openF.Info(), lo.Call.Args[2]) == paramObj(openF, 2) &&
+				engine.ObjOf(sealF.Info(), ls.Call.Args[3]) == paramObj(sealF, 3) && engine.ObjOf(openF.Info(), lo.Call.Args[3]) == paramObj(openF, 3)
 			// the AEAD used is the one built from the sub-key, and is called in a return
 			_, r1 := ls.Top.(*ast.ReturnStmt)
 			_, r2 := lo.Top.(*ast.ReturnStmt)
@@ -361,12 +394,13 @@ func c47chacha(c *engine.Ctx, p *engine.Prog) {
 	}
 	c.Floor("seal-open-mirror", nmir, 2)
 
-	// xchacha-constants (on Seal; the mirror rule carries them to Open)
+	// xchacha-constants (on Seal, through helpers; the mirror rule carries them to Open)
 	nc := 0
 	if sealF != nil {
-		info := sealF.Info()
 		var got []string
-		for _, s := range sealF.CallsTo("builtin.copy") {
+		for _, ds := range sealF.DeepCallsTo(2, "builtin.copy") {
+			s := ds.Inner
+			info := s.Fn.Info()
 			dst, d := ast.Unparen(s.Call.Args[0]).(*ast.SliceExpr)
 			src, sr := ast.Unparen(s.Call.Args[1]).(*ast.SliceExpr)
 			if !d || !sr {
@@ -387,7 +421,11 @@ func c47chacha(c *engine.Ctx, p *engine.Prog) {
 					al = a.Len()
 				}
 			}
-			got = append(got, fmt.Sprintf("[%d](%s:%s)<-nonce(%s:%s)", al, f(dst.Low), f(dst.High), f(src.Low), f(src.High)))
+			from := "other"
+			if e, in := cjChainArg(sealF, ds, src.X); in == sealF && engine.ObjOf(sealF.Info(), e) == paramObj(sealF, 1) && paramObj(sealF, 1) != nil {
+				from = "nonce"
+			}
+			got = append(got, fmt.Sprintf("[%d](%s:%s)<-%s(%s:%s)", al, f(dst.Low), f(dst.High), from, f(src.Low), f(src.High)))
 		}
 		nc++
 		want := []string{"[16](_:_)<-nonce(_:16)", "[12](4:_)<-nonce(16:_)"}
@@ -395,4 +433,44 @@ func c47chacha(c *engine.Ctx, p *engine.Prog) {
 			"XChaCha20: HChaCha20 takes nonce[:16]; the 12-byte IETF nonce is 4 zero bytes || nonce[16:24]; got "+strings.Join(got, " "))
 	}
 	c.Floor("xchacha-constants", nc, 1)
+}
+
+// c47Render prints an argument of a (possibly helper-resident) call with the
+// helper's parameters replaced by what the anchored function passes and the
+// anchored function's own parameters by their position.
+func c47Render(f *engine.Fn, d engine.DeepSite, e ast.Expr) string {
+	in := d.Inner.Fn
+	info := in.Info()
+	name := func(id *ast.Ident) string {
+		obj := info.ObjectOf(id)
+		if obj == nil {
+			return id.Name
+		}
+		var x ast.Expr = id
+		host := in
+		if in != f {
+			x, host = cjChainArg(f, d, id)
+		}
+		if host == f {
+			o := engine.ObjOf(f.Info(), x)
+			for k := 0; k < 6; k++ {
+				if po := paramObj(f, k); po != nil && po == o {
+					return fmt.Sprintf("param#%d", k)
+				}
+			}
+			if rv := cjRecv(f); rv != nil && rv == o {
+				return "recv"
+			}
+			if x != ast.Expr(id) {
+				return "<" + engine.ExprString(x) + ">"
+			}
+		}
+		if rv := cjRecv(in); rv != nil && rv == obj {
+			return "recv"
+		}
+		return id.Name
+	}
+	var buf bytes.Buffer
+	printer.Fprint(&buf, token.NewFileSet(), c50Rewrite(e, info, false, name))
+	return buf.String()
 }
